@@ -5,7 +5,7 @@
    amplitude <b|psi>, or the dense element <b|O|b'> of an MPO with b_q := out_q*d + in_q.
    The model functions are those of Model/MPSAlg.v, tied to /repo by tools/props/c11.py. *)
 From Coq Require Import List Ring ZArith.
-From EV Require Import Model.TransferMat Model.MPSAlg Proofs.TransferMat Proofs.MPSAlg.
+From EV Require Import Model.TransferMat Model.MPSAlg Proofs.TransferMat Proofs.MPSAlg Proofs.MPSInner.
 Import ListNotations.
 
 (* add_factors (direct sum [A|B], diag(A,B), ..., [A;B]) represents the sum: for every number of
@@ -27,6 +27,32 @@ Theorem C11_scale_factors_scale : forall (K : Type) (Ko : RingOps K),
   amp Ko (scale_factors Ko A c which) b =
   if Nat.ltb which (length A) then option_map (fun x => kmul Ko c x) (amp Ko A b) else amp Ko A b.
 Proof. exact scale_factors_amp. Qed.
+
+(* MPS.inner (left-to-right transfer contraction, left operand conjugated) equals the dense inner product
+   sum over all index strings b of conj(<b|A>) * <b|B>, for every number of sites and all bond dimensions, over
+   every commutative ring with a ring involution. *)
+Theorem C11_inner_spec : forall (K : Type) (Ko : RingOps K),
+  ring_theory (k0 Ko) (k1 Ko) (kadd Ko) (kmul Ko) (ksub Ko) (kopp Ko) (@eq K) ->
+  (forall a b, kconj Ko (kadd Ko a b) = kadd Ko (kconj Ko a) (kconj Ko b)) ->
+  (forall a b, kconj Ko (kmul Ko a b) = kmul Ko (kconj Ko a) (kconj Ko b)) ->
+  kconj Ko (k0 Ko) = k0 Ko -> kconj Ko (k1 Ko) = k1 Ko ->
+  forall (A B : list (T3 K)) (x : K) (fa fb : list nat -> K),
+  inner Ko A B = Some x ->
+  (forall b, In b (strings (map (@dp K) A)) -> amp Ko A b = Some (fa b)) ->
+  (forall b, In b (strings (map (@dp K) A)) -> amp Ko B b = Some (fb b)) ->
+  x = sumL Ko (strings (map (@dp K) A)) (fun b => kmul Ko (kconj Ko (fa b)) (fb b)).
+Proof. exact inner_spec. Qed.
+
+(* its premises are satisfiable: a concrete Gaussian-integer chain with inner product and all amplitudes defined,
+   and conjugation on Z[i] is a ring involution *)
+Theorem C11_inner_spec_premises_satisfiable :
+  (inner gi_ops ex_chain ex_chain <> None /\
+   forallb (fun b => match amp gi_ops ex_chain b with Some _ => true | None => false end)
+           (strings (map (@dp GI) ex_chain)) = true) /\
+  (forall a b, kconj gi_ops (kadd gi_ops a b) = kadd gi_ops (kconj gi_ops a) (kconj gi_ops b)) /\
+  (forall a b, kconj gi_ops (kmul gi_ops a b) = kmul gi_ops (kconj gi_ops a) (kconj gi_ops b)) /\
+  kconj gi_ops (k0 gi_ops) = k0 gi_ops /\ kconj gi_ops (k1 gi_ops) = k1 gi_ops.
+Proof. exact (conj inner_spec_example (conj gi_conj_add (conj gi_conj_mul (conj gi_conj_zero gi_conj_one)))). Qed.
 
 (* the premises are satisfiable: the Gaussian integers used for execution form such a ring *)
 Theorem C11_gaussian_integers_ring :
